@@ -180,6 +180,12 @@ def features(leaf):
                 for ce in comps.get(e["c"], []):
                     if ce["r"] and not e["r"]:
                         fs.add("optional_component_with_mandatory_%s%s" % ("group" if ce["k"] == "g" else "field", where))
+                    if ce["k"] == "c":
+                        # a component inside a component: does the inner one bring mandatory members, and how are the two referenced
+                        inner_mand = any(x["r"] and x["k"] != "c" for x in comps.get(ce["c"], []))
+                        fs.add("%s_component%s_inside_%s_component%s" % ("required" if ce["r"] else "optional",
+                                                                        "_with_mandatory_member" if inner_mand else "",
+                                                                        "required" if e["r"] else "optional", where))
             else:
                 fs.add("field_%s%s" % ("mandatory" if e["r"] else "optional", "_in_group" if depth else ""))
                 f = types.get(e["n"])
